@@ -327,6 +327,50 @@ func (eng *Engine) initReflect() {
 		ao := e.newArr(c, st.Elem(), true)
 		return &RVal{t: t, val: Slice{c: ao.cells[:l], obj: ao}}
 	}
+	// reflect.Append / AppendSlice: the growth rule of the append builtin
+	appendTo := func(e *Exec, sv *RVal, add []Value) Value {
+		st, ok := under(sv.t).(*types.Slice)
+		if !ok {
+			e.reflectPanic("reflect.Append of non-slice type " + typeString(sv.t))
+		}
+		cur, _ := e.rget(sv).(Slice)
+		if len(add) == 0 {
+			return &RVal{t: sv.t, val: cur}
+		}
+		n := len(cur.c) + len(add)
+		if n > e.eng.maxAlloc {
+			e.endPath(stBound, "reflect.Append allocation")
+		}
+		if n <= cap(cur.c) {
+			ns := cur.c[:n]
+			tmp := make([]Value, len(add))
+			for i, v := range add {
+				tmp[i] = copyVal(v)
+			}
+			copy(ns[len(cur.c):], tmp)
+			return &RVal{t: sv.t, val: Slice{c: ns, obj: cur.obj, off: cur.off}}
+		}
+		ao := e.newArr(growCap(cap(cur.c), n, sizeofT(st.Elem())), st.Elem(), true)
+		copy(ao.cells, cur.c)
+		for i, v := range add {
+			ao.cells[len(cur.c)+i] = copyVal(v)
+		}
+		return &RVal{t: sv.t, val: Slice{c: ao.cells[:n], obj: ao}}
+	}
+	s["reflect.Append"] = func(e *Exec, _ *frame, _ *ssa.Function, args []Value) Value {
+		sv := args[0].(*RVal)
+		var add []Value
+		if xs, ok := args[1].(Slice); ok {
+			for _, x := range xs.c {
+				add = append(add, e.rget(x.(*RVal)))
+			}
+		}
+		return appendTo(e, sv, add)
+	}
+	s["reflect.AppendSlice"] = func(e *Exec, _ *frame, _ *ssa.Function, args []Value) Value {
+		t, _ := e.rget(args[1].(*RVal)).(Slice)
+		return appendTo(e, args[0].(*RVal), t.c)
+	}
 	mkMap := func(e *Exec, _ *frame, _ *ssa.Function, args []Value) Value {
 		t := rtypeOf(args[0])
 		mt, ok := under(t).(*types.Map)
